@@ -37,22 +37,25 @@ Record pobj := {
   oshot   : nat;             (* depth of active "with p.oneshot():" blocks; > 0 = the memoize caches exist *)
   ocppid  : option Z;        (* Process._cache[ppid]: value memoized by Process.ppid() inside oneshot *)
   ocstat  : option (Z * Z);  (* _proc._cache[_parse_stat_file]: (starttime, ppid) of the memoized stat record *)
-  oexit   : bool             (* _exitcode is cached (wait() returned; for a process that is not our child: None) *)
+  oexit   : bool;            (* _exitcode is cached (wait() returned; for a process that is not our child: None) *)
+  oshared : bool             (* a copy.copy() of this object exists, or it is one: both share _proc (and its cache) *)
 }.
 
 Definition with_gone (b : bool) (x : pobj) : pobj :=
-  {| opid := opid x; ostart := ostart x; ogone := b; oreused := oreused x; octime := octime x; ohash := ohash x; oshot := oshot x; ocppid := ocppid x; ocstat := ocstat x; oexit := oexit x |}.
+  {| opid := opid x; ostart := ostart x; ogone := b; oreused := oreused x; octime := octime x; ohash := ohash x; oshot := oshot x; ocppid := ocppid x; ocstat := ocstat x; oexit := oexit x; oshared := oshared x |}.
 Definition with_reused (b : bool) (x : pobj) : pobj :=
-  {| opid := opid x; ostart := ostart x; ogone := ogone x; oreused := b; octime := octime x; ohash := ohash x; oshot := oshot x; ocppid := ocppid x; ocstat := ocstat x; oexit := oexit x |}.
+  {| opid := opid x; ostart := ostart x; ogone := ogone x; oreused := b; octime := octime x; ohash := ohash x; oshot := oshot x; ocppid := ocppid x; ocstat := ocstat x; oexit := oexit x; oshared := oshared x |}.
 Definition with_ctime (c : option Z) (x : pobj) : pobj :=
-  {| opid := opid x; ostart := ostart x; ogone := ogone x; oreused := oreused x; octime := c; ohash := ohash x; oshot := oshot x; ocppid := ocppid x; ocstat := ocstat x; oexit := oexit x |}.
+  {| opid := opid x; ostart := ostart x; ogone := ogone x; oreused := oreused x; octime := c; ohash := ohash x; oshot := oshot x; ocppid := ocppid x; ocstat := ocstat x; oexit := oexit x; oshared := oshared x |}.
 Definition with_hash (h : option (Z * option Z)) (x : pobj) : pobj :=
-  {| opid := opid x; ostart := ostart x; ogone := ogone x; oreused := oreused x; octime := octime x; ohash := h; oshot := oshot x; ocppid := ocppid x; ocstat := ocstat x; oexit := oexit x |}.
+  {| opid := opid x; ostart := ostart x; ogone := ogone x; oreused := oreused x; octime := octime x; ohash := h; oshot := oshot x; ocppid := ocppid x; ocstat := ocstat x; oexit := oexit x; oshared := oshared x |}.
 Definition with_exit (b : bool) (x : pobj) : pobj :=
-  {| opid := opid x; ostart := ostart x; ogone := ogone x; oreused := oreused x; octime := octime x; ohash := ohash x; oshot := oshot x; ocppid := ocppid x; ocstat := ocstat x; oexit := b |}.
+  {| opid := opid x; ostart := ostart x; ogone := ogone x; oreused := oreused x; octime := octime x; ohash := ohash x; oshot := oshot x; ocppid := ocppid x; ocstat := ocstat x; oexit := b; oshared := oshared x |}.
+Definition with_shared (x : pobj) : pobj :=
+  {| opid := opid x; ostart := ostart x; ogone := ogone x; oreused := oreused x; octime := octime x; ohash := ohash x; oshot := oshot x; ocppid := ocppid x; ocstat := ocstat x; oexit := oexit x; oshared := true |}.
 (* oneshot state: depth and the two memoize caches *)
 Definition with_shot (n : nat) (p : option Z) (t : option (Z * Z)) (x : pobj) : pobj :=
-  {| opid := opid x; ostart := ostart x; ogone := ogone x; oreused := oreused x; octime := octime x; ohash := ohash x; oshot := n; ocppid := p; ocstat := t; oexit := oexit x |}.
+  {| opid := opid x; ostart := ostart x; ogone := ogone x; oreused := oreused x; octime := octime x; ohash := ohash x; oshot := n; ocppid := p; ocstat := t; oexit := oexit x; oshared := oshared x |}.
 
 Definition ident (x : pobj) : Z * option Z := (opid x, ostart x).
 Definition opt_eqb (a b : option Z) : bool :=
@@ -109,6 +112,8 @@ Inductive setter :=
 | Rlimit (rsrc : Z) (lims : list Z)
 | Affinity (cpus : list Z).
 
+Inductive how := HCopy | HDeep | HPickle | HLoad.
+
 Inductive call :=
 | New (pid : Z)                 (* psutil.Process(pid) *)
 | NewPopen (pid : Z)            (* psutil.Popen(...) whose child has PID pid: _init(pid, _ignore_nsp=True);
@@ -131,7 +136,11 @@ Inductive call :=
                                    in the caller's PID namespace sees the PID (false: procfs is a foreign one) *)
 | IterStart                     (* g = psutil.process_iter(): a generator the caller keeps *)
 | IterNext (g : nat)            (* next(g) *)
-| WaitProcs (o : nat) (vis : bool).  (* psutil.wait_procs([o], timeout=0): is o reported gone? *)
+| WaitProcs (o : nat) (vis : bool)   (* psutil.wait_procs([o], timeout=0): is o reported gone? *)
+| Copy (o : nat) (hw : how) (ok : bool)   (* copy.copy(o) / copy.deepcopy(o) / pickle.loads(pickle.dumps(o)) / loading a
+                                     pickle of o dumped earlier; [ok]: the tree under test produces a copy this way
+                                     (as of now: copy.copy does -- a shallow copy --, the others raise TypeError: RLock) *)
+| PickleDump (o : nat) (ok : bool). (* pickle.dumps(o), kept for a later load *)
 
 Inductive res :=
 | RNone | RBool (b : bool) | RInt (n : Z) | RObj (i : nat) | RObjs (l : list nat)
@@ -186,13 +195,13 @@ Definition new_obj (pid : Z) : outcome pobj :=
        | Some (st, _, _) =>
          Val {| opid := pid; ostart := if kv_ctime_ok K pid then Some st else None;
                 ogone := false; oreused := false; octime := None; ohash := None;
-                oshot := O; ocppid := None; ocstat := None; oexit := false |}
+                oshot := O; ocppid := None; ocstat := None; oexit := false; oshared := false |}
        end.
 
 (* Popen.__init__ -> _init(pid, _ignore_nsp=True): a vanished child is not an error *)
 Definition orphan_obj (pid : Z) : pobj :=
   {| opid := pid; ostart := None; ogone := true; oreused := false; octime := None; ohash := None;
-     oshot := O; ocppid := None; ocstat := None; oexit := false |}.
+     oshot := O; ocppid := None; ocstat := None; oexit := false; oshared := false |}.
 Definition new_popen (pid : Z) : outcome pobj :=
   if pid <? 0 then Exc ValueError
   else if PID_MAX <=? pid then Exc NoSuchProcess
@@ -566,7 +575,10 @@ Definition mcall (m : mstate) (c : call) : mstate * outcome res * list sysc :=
   | OneshotEnter o =>
     match nth_error (objs m) o with
     | None => (m, OutOfModel, [])
-    | Some x => (with_objs (upd_nth o (oneshot_enter x) (objs m)) m, Val RNone, [])
+    | Some x =>
+      (* objects that share _proc with a copy would share the stat cache: outside the model *)
+      if oshared x then (m, OutOfModel, [])
+      else (with_objs (upd_nth o (oneshot_enter x) (objs m)) m, Val RNone, [])
     end
   | OneshotExit o =>
     match nth_error (objs m) o with
@@ -581,6 +593,7 @@ Definition mcall (m : mstate) (c : call) : mstate * outcome res * list sysc :=
     match nth_error (objs m) o with
     | None => (m, OutOfModel, [])
     | Some x =>
+      if oshared x then (m, OutOfModel, []) else
       let '(x1, r, add) := do_ppid (oneshot_enter x) in
       match oneshot_exit x1 with
       | Some x2 =>
@@ -651,6 +664,24 @@ Definition mcall (m : mstate) (c : call) : mstate * outcome res * list sysc :=
     | Some x =>
       let '(x1, r, add) := do_wait_procs x vis in
       (with_reusedset (reused m ++ add) (with_objs (upd_nth o x1 (objs m)) m), r, [])
+    end
+  | Copy o hw ok =>
+    match nth_error (objs m) o with
+    | None => (m, OutOfModel, [])
+    | Some x =>
+      if ok then
+        (* a copy is another handle on the same process: every attribute as it is now (inside a oneshot block the
+           caches would be shared: outside the model) *)
+        match oshot x with
+        | O => (with_objs (upd_nth o (with_shared x) (objs m) ++ [with_shared x]) m, Val (RObj (length (objs m))), [])
+        | S _ => (m, OutOfModel, [])
+        end
+      else match hw with HLoad => (m, OutOfModel, []) | _ => (m, Exc TypeError, []) end
+    end
+  | PickleDump o ok =>
+    match nth_error (objs m) o with
+    | None => (m, OutOfModel, [])
+    | Some _ => (m, if ok then Val RNone else Exc TypeError, [])
     end
   end.
 
